@@ -154,19 +154,28 @@ class Explorer:
         (arithmetic-heavy cones: adders are a poor fit for the parity abstraction)"""
         t = time.time()
         self.stats["exact_fallbacks"] = self.stats.get("exact_fallbacks", 0) + 1
-        sv = z3.Solver()
-        sv.set("timeout", self.solver_timeout_ms)
-        for p in self.pc:
-            sv.add(p.z3())
-        for b in bits:
-            sv.add(b.z3() if b.__class__ is Bit else z3.BoolVal(bool(b)))
         try:
-            r = sv.check()
-            if r == z3.unknown:
-                raise Inconclusive("solver unknown (exact encoding): %s" % sv.reason_unknown())
-            if r == z3.unsat:
-                return False, None
-            return True, model_dict(sv.model())
+            # z3's run time on these cones varies a lot with its search heuristics: a time-out is retried twice with another random seed
+            # (half the budget each) before the obligation is reported as undecided
+            for attempt, (seed, budget) in enumerate(((0, self.solver_timeout_ms), (7, self.solver_timeout_ms // 2), (23, self.solver_timeout_ms // 2))):
+                sv = z3.Solver()
+                sv.set("timeout", budget)
+                if seed:
+                    sv.set("random_seed", seed)
+                    self.stats["exact_retries"] = self.stats.get("exact_retries", 0) + 1
+                for p in self.pc:
+                    sv.add(p.z3())
+                for b in bits:
+                    sv.add(b.z3() if b.__class__ is Bit else z3.BoolVal(bool(b)))
+                r = sv.check()
+                if r == z3.unknown:
+                    if self.deadline is not None and time.time() > self.deadline:
+                        break
+                    continue
+                if r == z3.unsat:
+                    return False, None
+                return True, model_dict(sv.model())
+            raise Inconclusive("solver unknown (exact encoding): %s" % sv.reason_unknown())
         finally:
             self.stats["solver_s"] += time.time() - t
 
